@@ -1211,6 +1211,10 @@ class TLSRecordLayer(object):
                                     continue
                                 heartbeat_response = heartbeat_message.\
                                     create_response()
+                                if len(heartbeat_response.write()) > \
+                                        self.recordSize:
+                                    # can't be answered in a single record
+                                    continue
                                 for result in self._sendMsg(
                                         heartbeat_response):
                                     yield result
@@ -1497,6 +1501,11 @@ class TLSRecordLayer(object):
                                    "we cant send it to other side")
         heartbeat_request = Heartbeat().create(
             HeartbeatMessageType.heartbeat_request, payload, padding_length)
+        # a heartbeat message can't be split into multiple records, the
+        # other side would process every part as a message of its own
+        if len(heartbeat_request.write()) > self.recordSize:
+            raise TLSInternalError("Heartbeat message doesn't fit into "
+                                   "a single record")
 
         try:
             for result in self._sendMsg(heartbeat_request,
